@@ -9,14 +9,14 @@ VERIF = os.path.dirname(os.path.dirname(os.path.abspath(__file__)))
 SCR = os.environ.get('EQ_SCRATCH', '/tmp/wt/eqrepo')
 ENV = dict(os.environ, CARGO_NET_OFFLINE='true')
 BY_FILE = [
-    ('src/token/', ['C01', 'C06', 'C07', 'C13']),
+    ('src/token/', ['C06', 'C07', 'C01']),
     ('src/tree/iter.rs', ['C14']),
-    ('src/tree/', ['C02', 'C05', 'C13', 'C08', 'C11', 'C01', 'C14', 'C12']),
-    ('src/operator/', ['C03', 'C04', 'C09', 'C11', 'C14', 'C01', 'C05', 'C13', 'C02']),
-    ('src/function/', ['C10', 'C01', 'C09']),
-    ('src/context/', ['C04', 'C09', 'C11', 'C12']),
+    ('src/tree/', ['C02', 'C05', 'C13', 'C08']),
+    ('src/operator/', ['C03', 'C04', 'C09', 'C11', 'C14', 'C08']),
+    ('src/function/', ['C10', 'C09']),
+    ('src/context/', ['C04', 'C09', 'C11']),
     ('src/interface/', ['C12']),
-    ('src/value/', ['C03', 'C10', 'C01', 'C12', 'C04']),
+    ('src/value/', ['C03', 'C10', 'C12', 'C04']),
     ('src/error/', ['C01']),
 ]
 
